@@ -1,59 +1,609 @@
 /-
   Lemmas/Calendar: the crate's Julian-day arithmetic (Model/Common, Model/Types) realises the proleptic
   Gregorian calendar of Spec/Calendar.
+
+  Proof plan for the round trip.  `julian2date` is 146097-periodic (400 years), `date2julian` and the
+  calendar rules are 400-year periodic; one period (the 146097 days from 0001-01-01) is discharged by kernel
+  evaluation of a `Nat`-valued mirror of the two functions (`Lemmas/CalendarCheck`, evaluated in the 8
+  modules `Lemmas/CalendarP0` … `P7`), read back into `Int` here.  Everything else is `omega` over the
+  closed-form day number of Spec/Calendar.  Helper lemmas live in the sub-namespace `SqlDt.Lemmas.Cal`
+  (e.g. `Cal.dayNumber_inj`, `Cal.date2julian_eq_dayNumber`, `Cal.good_all`); the checker in `SqlDt.Lemmas.CalCheck`.
 -/
 import SqlDt.Lemmas.Consts
 import SqlDt.Spec.Calendar
+import SqlDt.Lemmas.CalendarP0
+import SqlDt.Lemmas.CalendarP1
+import SqlDt.Lemmas.CalendarP2
+import SqlDt.Lemmas.CalendarP3
+import SqlDt.Lemmas.CalendarP4
+import SqlDt.Lemmas.CalendarP5
+import SqlDt.Lemmas.CalendarP6
+import SqlDt.Lemmas.CalendarP7
 namespace SqlDt.Lemmas
-open SqlDt Gen Spec
+open SqlDt Gen Spec CalCheck
+
+/-! ### Leap years, month lengths, the closed-form day number -/
 
 /-- The model's leap-year test and month-length table are the calendar's (years ≥ 0). -/
 theorem isLeapYear_eq (y : Int) (hy : 0 ≤ y) : isLeapYear y = isLeap y := by
-  sorry
+  unfold isLeapYear isLeap
+  rw [rrem_nonneg_eq hy, rrem_nonneg_eq hy, rrem_nonneg_eq hy]
+
+namespace Cal
+
+theorem months12 (m : Int) (hm : 1 ≤ m ∧ m ≤ 12) :
+    m = 1 ∨ m = 2 ∨ m = 3 ∨ m = 4 ∨ m = 5 ∨ m = 6 ∨ m = 7 ∨ m = 8 ∨ m = 9 ∨ m = 10 ∨ m = 11 ∨ m = 12 := by
+  omega
+
+end Cal
+
+open Cal
 
 theorem daysOfMonth_eq (y m : Int) (hy : 0 ≤ y) (hm : 1 ≤ m ∧ m ≤ 12) : daysOfMonth y m = dim y m := by
-  sorry
+  have := months12 m hm
+  unfold daysOfMonth dim
+  rw [isLeapYear_eq y hy]
+  cases hl : isLeap y <;> rcases this with h | h | h | h | h | h | h | h | h | h | h | h <;> subst h <;> decide
+
+namespace Cal
+
+/-- The leap flag as a 0/1 integer, characterised arithmetically (for `omega`). -/
+def leapI (y : Int) : Int := if isLeap y then 1 else 0
+
+theorem leapI_spec (y : Int) :
+    (leapI y = 1 ∧ y % 4 = 0 ∧ (y % 100 ≠ 0 ∨ y % 400 = 0)) ∨
+    (leapI y = 0 ∧ ¬ (y % 4 = 0 ∧ (y % 100 ≠ 0 ∨ y % 400 = 0))) := by
+  unfold leapI
+  cases h : isLeap y
+  · right; refine ⟨by simp, ?_⟩
+    intro hh; have : isLeap y = true := by unfold isLeap; simp; exact hh
+    rw [h] at this; exact absurd this (by decide)
+  · left; refine ⟨by simp, ?_⟩
+    unfold isLeap at h; simpa using h
+
+theorem dim_eq (y m : Int) : dim y m =
+    if m = 2 then 28 + leapI y else if m = 4 ∨ m = 6 ∨ m = 9 ∨ m = 11 then 30 else 31 := by
+  unfold dim leapI; cases isLeap y <;> simp
+
+theorem dbm_eq (y m : Int) : daysBeforeMonth y m =
+    (if m = 1 then 0 else if m = 2 then 31 else if m = 3 then 59 else if m = 4 then 90 else if m = 5 then 120
+    else if m = 6 then 151 else if m = 7 then 181 else if m = 8 then 212 else if m = 9 then 243
+    else if m = 10 then 273 else if m = 11 then 304 else 334) + (if m > 2 then leapI y else 0) := by
+  unfold daysBeforeMonth leapI
+  by_cases hm : m > 2 <;> cases isLeap y <;> simp [hm]
+
+/-- Month by month: the cumulative table and the month length, as plain integers. -/
+theorem month_table (y m : Int) (hm : 1 ≤ m ∧ m ≤ 12) :
+    (m = 1 ∧ daysBeforeMonth y m = 0 ∧ dim y m = 31) ∨
+    (m = 2 ∧ daysBeforeMonth y m = 31 ∧ dim y m = 28 + leapI y) ∨
+    (m = 3 ∧ daysBeforeMonth y m = 59 + leapI y ∧ dim y m = 31) ∨
+    (m = 4 ∧ daysBeforeMonth y m = 90 + leapI y ∧ dim y m = 30) ∨
+    (m = 5 ∧ daysBeforeMonth y m = 120 + leapI y ∧ dim y m = 31) ∨
+    (m = 6 ∧ daysBeforeMonth y m = 151 + leapI y ∧ dim y m = 30) ∨
+    (m = 7 ∧ daysBeforeMonth y m = 181 + leapI y ∧ dim y m = 31) ∨
+    (m = 8 ∧ daysBeforeMonth y m = 212 + leapI y ∧ dim y m = 31) ∨
+    (m = 9 ∧ daysBeforeMonth y m = 243 + leapI y ∧ dim y m = 30) ∨
+    (m = 10 ∧ daysBeforeMonth y m = 273 + leapI y ∧ dim y m = 31) ∨
+    (m = 11 ∧ daysBeforeMonth y m = 304 + leapI y ∧ dim y m = 30) ∨
+    (m = 12 ∧ daysBeforeMonth y m = 334 + leapI y ∧ dim y m = 31) := by
+  rw [dbm_eq, dim_eq]
+  rcases months12 m hm with h | h | h | h | h | h | h | h | h | h | h | h <;> subst h <;> simp
+
+/-- `date2julian` with Rust's truncating `/` replaced by `/` (all dividends are non-negative from year −4799 on). -/
+theorem date2julian_nonneg (y m d : Int) (hy : -4799 ≤ y) (hm : 1 ≤ m ∧ m ≤ 12) :
+    date2julian y m d =
+      (if m > 2 then
+        (y + 4800) * 365 - 32167 + ((y + 4800) / 4 - (y + 4800) / 100 + (y + 4800) / 100 / 4) + (7834 * (m + 1) / 256 + d)
+      else
+        (y + 4799) * 365 - 32167 + ((y + 4799) / 4 - (y + 4799) / 100 + (y + 4799) / 100 / 4) + (7834 * (m + 13) / 256 + d)) := by
+  unfold date2julian
+  by_cases h : m > 2
+  · simp only [h, ↓reduceIte]
+    rw [rdiv_nonneg_eq (show (0:Int) ≤ y + 4800 by omega), rdiv_nonneg_eq (show (0:Int) ≤ y + 4800 by omega),
+      rdiv_nonneg_eq (show (0:Int) ≤ (y + 4800) / 100 by omega), rdiv_nonneg_eq (show (0:Int) ≤ 7834 * (m + 1) by omega)]
+  · simp only [h, ↓reduceIte]
+    rw [rdiv_nonneg_eq (show (0:Int) ≤ y + 4799 by omega), rdiv_nonneg_eq (show (0:Int) ≤ y + 4799 by omega),
+      rdiv_nonneg_eq (show (0:Int) ≤ (y + 4799) / 100 by omega), rdiv_nonneg_eq (show (0:Int) ≤ 7834 * (m + 13) by omega)]
+
+/-- `date2julian` is the closed-form day number for every year ≥ 0 (no upper bound). -/
+theorem date2julian_eq_dayNumber (y m d : Int) (hy : 0 ≤ y) (hm : 1 ≤ m ∧ m ≤ 12) :
+    date2julian y m d = dayNumber y m d + 2440588 := by
+  rw [date2julian_nonneg y m d (by omega) hm]
+  unfold dayNumber daysBeforeYear
+  have hl := leapI_spec y
+  rcases month_table y m hm with h | h | h | h | h | h | h | h | h | h | h | h <;>
+    obtain ⟨h1, h2, -⟩ := h <;> subst h1 <;> rw [h2] <;> simp only [gt_iff_lt, Int.reduceLT, ↓reduceIte] <;> omega
+
+end Cal
 
 /-- `date2julian` (minus the epoch) is the closed-form day number, for every year 0..10000, month 1..12 and ANY day. -/
 theorem fromYmd_eq_dayNumber (y m d : Int) (hy : 0 ≤ y ∧ y ≤ 10000) (hm : 1 ≤ m ∧ m ≤ 12) :
     Date.fromYmdUnchecked y m d = dayNumber y m d := by
-  sorry
+  unfold Date.fromYmdUnchecked
+  rw [UNIX_EPOCH_JULIAN_eq, date2julian_eq_dayNumber y m d hy.1 hm]; omega
+
+namespace Cal
+
+theorem dby_succ (y : Int) : daysBeforeYear (y + 1) = daysBeforeYear y + 365 + leapI y := by
+  unfold daysBeforeYear
+  have hl := leapI_spec y
+  omega
+
+theorem dby_mono_nat (y : Int) (k : Nat) : daysBeforeYear y + 365 * k ≤ daysBeforeYear (y + k) := by
+  induction k with
+  | zero => simp
+  | succ n ih =>
+    have e : y + ((n + 1 : Nat) : Int) = (y + n) + 1 := by omega
+    rw [e, dby_succ]
+    have := leapI_spec (y + n)
+    omega
+
+theorem dby_mono (y y' : Int) (h : y ≤ y') : daysBeforeYear y + 365 * (y' - y) ≤ daysBeforeYear y' := by
+  have := dby_mono_nat y (y' - y).toNat
+  have e : ((y' - y).toNat : Int) = y' - y := by omega
+  rw [e] at this
+  have e2 : y + (y' - y) = y' := by omega
+  rw [e2] at this; exact this
+
+theorem dbm_succ (y m : Int) (hm : 1 ≤ m ∧ m ≤ 11) :
+    daysBeforeMonth y (m + 1) = daysBeforeMonth y m + dim y m := by
+  rw [dbm_eq, dbm_eq, dim_eq]
+  have hl := leapI_spec y
+  rcases months12 m ⟨hm.1, by omega⟩ with h | h | h | h | h | h | h | h | h | h | h | h <;> subst h <;> simp <;> omega
+
+end Cal
 
 /-- The day number advances by exactly one along the calendar's successor rule. -/
 theorem dayNumber_nextDay (y m d : Int) (h : IsDate y m d) :
     dayNumber (nextDay (y, m, d)).1 (nextDay (y, m, d)).2.1 (nextDay (y, m, d)).2.2 = dayNumber y m d + 1 := by
-  sorry
+  obtain ⟨h1, h2, h3, h4⟩ := h
+  unfold nextDay
+  simp only []
+  by_cases c1 : d < dim y m
+  · rw [if_pos c1]; unfold dayNumber; simp only []; omega
+  · rw [if_neg c1]
+    by_cases c2 : m < 12
+    · rw [if_pos c2]; unfold dayNumber; simp only []
+      rw [dbm_succ y m ⟨h1, by omega⟩]; omega
+    · rw [if_neg c2]; unfold dayNumber; simp only []
+      have e : m = 12 := by omega
+      subst e
+      rw [dby_succ]
+      have hl := leapI_spec y
+      rcases month_table y 12 ⟨by omega, by omega⟩ with h | h | h | h | h | h | h | h | h | h | h | h <;>
+        obtain ⟨e1, e2, e3⟩ := h <;> first | omega | skip
+      rcases month_table (y + 1) 1 ⟨by omega, by omega⟩ with h | h | h | h | h | h | h | h | h | h | h | h <;>
+        obtain ⟨f1, f2, f3⟩ := h <;> omega
+
+namespace Cal
+
+theorem dim_range (y m : Int) : 28 ≤ dim y m ∧ dim y m ≤ 31 := by
+  rw [dim_eq]; have := leapI_spec y
+  split
+  · omega
+  · split <;> omega
+
+end Cal
 
 /-- The successor of a real date is a real date. -/
 theorem nextDay_isDate (y m d : Int) (h : IsDate y m d) :
     IsDate (nextDay (y, m, d)).1 (nextDay (y, m, d)).2.1 (nextDay (y, m, d)).2.2 := by
-  sorry
+  obtain ⟨h1, h2, h3, h4⟩ := h
+  unfold nextDay
+  simp only []
+  by_cases c1 : d < dim y m
+  · rw [if_pos c1]; show IsDate y m (d + 1); exact ⟨h1, h2, by omega, by omega⟩
+  · rw [if_neg c1]
+    by_cases c2 : m < 12
+    · rw [if_pos c2]; show IsDate y (m + 1) 1
+      have := dim_range y (m + 1); exact ⟨by omega, by omega, by omega, by omega⟩
+    · rw [if_neg c2]; show IsDate (y + 1) 1 1
+      have := dim_range (y + 1) 1; exact ⟨by omega, by omega, by omega, by omega⟩
+
+namespace Cal
+
+theorem dbm_mono_nat (y m : Int) (k : Nat) (hm : 1 ≤ m) (hk : m + k ≤ 12) :
+    daysBeforeMonth y m + 28 * k ≤ daysBeforeMonth y (m + k) := by
+  induction k with
+  | zero => simp
+  | succ n ih =>
+    have e : m + ((n + 1 : Nat) : Int) = (m + n) + 1 := by omega
+    rw [e, dbm_succ y (m + n) ⟨by omega, by omega⟩]
+    have := dim_range y (m + n)
+    have := ih (by omega)
+    omega
+
+/-- Days before month `m'` cover month `m` entirely when `m < m'`. -/
+theorem dbm_lt (y m m' : Int) (hm : 1 ≤ m) (hmm : m < m') (hm' : m' ≤ 12) :
+    daysBeforeMonth y m + dim y m ≤ daysBeforeMonth y m' := by
+  rw [← dbm_succ y m ⟨hm, by omega⟩]
+  have := dbm_mono_nat y (m + 1) (m' - (m + 1)).toNat (by omega) (by omega)
+  have e : m + 1 + ((m' - (m + 1)).toNat : Int) = m' := by omega
+  rw [e] at this; omega
+
+theorem dbm_nonneg (y m : Int) (hm : 1 ≤ m ∧ m ≤ 12) : 0 ≤ daysBeforeMonth y m := by
+  have hl := leapI_spec y
+  rcases month_table y m hm with h | h | h | h | h | h | h | h | h | h | h | h <;> omega
+
+/-- A year's months fill at most the year. -/
+theorem dbm_dim_le (y m : Int) (hm : 1 ≤ m ∧ m ≤ 12) :
+    daysBeforeMonth y m + dim y m ≤ 365 + leapI y := by
+  have hl := leapI_spec y
+  rcases month_table y m hm with h | h | h | h | h | h | h | h | h | h | h | h <;> omega
+
+theorem dayNumber_lt_of_lexLt (y m d y' m' d' : Int) (h : IsDate y m d) (h' : IsDate y' m' d')
+    (hl : lexLt (y, m, d) (y', m', d')) : dayNumber y m d < dayNumber y' m' d' := by
+  obtain ⟨h1, h2, h3, h4⟩ := h
+  obtain ⟨h1', h2', h3', h4'⟩ := h'
+  have hl : y < y' ∨ (y = y' ∧ (m < m' ∨ (m = m' ∧ d < d'))) := hl
+  unfold dayNumber
+  rcases hl with hl | ⟨rfl, hl | ⟨rfl, hl⟩⟩
+  · have a := dbm_dim_le y m ⟨h1, h2⟩
+    have b := dby_succ y
+    have c := dby_mono (y + 1) y' (by omega)
+    have d := dbm_nonneg y' m' ⟨h1', h2'⟩
+    omega
+  · have := dbm_lt y m m' h1 hl h2'
+    omega
+  · omega
+
+theorem lexLt_trichotomy (a b : Int × Int × Int) : lexLt a b ∨ a = b ∨ lexLt b a := by
+  obtain ⟨y, m, d⟩ := a
+  obtain ⟨y', m', d'⟩ := b
+  unfold lexLt
+  simp only [Prod.mk.injEq]
+  omega
+
+theorem lexLt_asymm (a b : Int × Int × Int) (h : lexLt a b) : ¬ lexLt b a := by
+  obtain ⟨y, m, d⟩ := a
+  obtain ⟨y', m', d'⟩ := b
+  unfold lexLt at *
+  simp only at *
+  omega
+
+end Cal
 
 /-- Day numbers order real dates like their (y, m, d) triples. -/
 theorem dayNumber_lt_iff (y m d y' m' d' : Int) (h : IsDate y m d) (h' : IsDate y' m' d') :
     dayNumber y m d < dayNumber y' m' d' ↔ lexLt (y, m, d) (y', m', d') := by
-  sorry
+  constructor
+  · intro hlt
+    rcases lexLt_trichotomy (y, m, d) (y', m', d') with t | t | t
+    · exact t
+    · simp only [Prod.mk.injEq] at t
+      obtain ⟨e1, e2, e3⟩ := t
+      subst e1; subst e2; subst e3; omega
+    · have := dayNumber_lt_of_lexLt _ _ _ _ _ _ h' h t; omega
+  · exact dayNumber_lt_of_lexLt _ _ _ _ _ _ h h'
+
+namespace Cal
+
+/-- Two real dates with the same day number are the same date. -/
+theorem dayNumber_inj (y m d y' m' d' : Int) (h : IsDate y m d) (h' : IsDate y' m' d')
+    (e : dayNumber y m d = dayNumber y' m' d') : (y, m, d) = (y', m', d') := by
+  rcases lexLt_trichotomy (y, m, d) (y', m', d') with t | t | t
+  · have := dayNumber_lt_of_lexLt _ _ _ _ _ _ h h' t; omega
+  · exact t
+  · have := dayNumber_lt_of_lexLt _ _ _ _ _ _ h' h t; omega
+
+theorem dby_one : daysBeforeYear 1 = 0 := by decide
+theorem dby_10000 : daysBeforeYear 10000 = 3652059 := by decide
+
+theorem dayNumber_lower (y m d : Int) (hy : 1 ≤ y) (h : IsDate y m d) : -719162 ≤ dayNumber y m d := by
+  obtain ⟨h1, h2, h3, h4⟩ := h
+  have a := dby_mono 1 y hy
+  have b := dbm_nonneg y m ⟨h1, h2⟩
+  rw [dby_one] at a
+  unfold dayNumber; omega
+
+theorem dayNumber_upper (y m d : Int) (Y : Int) (hy : y < Y) (h : IsDate y m d) :
+    dayNumber y m d < daysBeforeYear Y - 719162 := by
+  obtain ⟨h1, h2, h3, h4⟩ := h
+  have a := dby_mono (y + 1) Y (by omega)
+  have b := dbm_dim_le y m ⟨h1, h2⟩
+  have c := dby_succ y
+  unfold dayNumber; omega
+
+theorem dayNumber_ge_of_year_ge (y m d : Int) (Y : Int) (hy : Y ≤ y) (h : IsDate y m d) :
+    daysBeforeYear Y - 719162 ≤ dayNumber y m d := by
+  obtain ⟨h1, h2, h3, h4⟩ := h
+  have a := dby_mono Y y hy
+  have b := dbm_nonneg y m ⟨h1, h2⟩
+  unfold dayNumber; omega
+
+end Cal
 
 /-- Range: real dates of years 1..9999 have exactly the day numbers of the supported range. -/
 theorem dayNumber_range (y m d : Int) (h : ValidYMD y m d) :
     -719162 ≤ dayNumber y m d ∧ dayNumber y m d ≤ 2932896 := by
-  sorry
+  obtain ⟨hy1, hy2, hd⟩ := h
+  refine ⟨dayNumber_lower y m d hy1 hd, ?_⟩
+  have := dayNumber_upper y m d 10000 (by omega) hd
+  rw [dby_10000] at this; omega
+
+namespace Cal
+
+/-! ### julian2date in stages -/
+def stA' (a : Int) : Int := a + (60 + a / 146097 * 3 + ((a - a / 146097 * 146097) * 4 + 3) / 146097)
+def stA (j : Int) : Int := stA' (j + 32044)
+def stY (r : Int) : Int := r * 4 / 1461
+def stC (r : Int) : Int := if stY r ≠ 0 then (r + 305) % 365 + 123 else (r + 306) % 366 + 123
+def stK (c : Int) : Int := c * 2141 / 65536
+def stM (c : Int) : Int := (stK c + 10) % 12 + 1
+def stD (c : Int) : Int := c - 7834 * stK c / 256
+
+theorem julian2date_stages (j : Int) :
+    julian2date j =
+      (stY (stA j - stA j / 1461 * 1461) + stA j / 1461 * 4 - 4800,
+       stM (stC (stA j - stA j / 1461 * 1461)), stD (stC (stA j - stA j / 1461 * 1461))) := rfl
+
+theorem stA'_period (a : Int) : stA' (a + 146097) = stA' a + 146100 := by
+  unfold stA'
+  have h1 : (a + 146097) / 146097 = a / 146097 + 1 := by omega
+  rw [h1]
+  have h2 : a + 146097 - (a / 146097 + 1) * 146097 = a - a / 146097 * 146097 := by omega
+  rw [h2]; omega
+
+theorem stA_period (j : Int) : stA (j + 146097) = stA j + 146100 := by
+  unfold stA; rw [← stA'_period]; congr 1; omega
+
+theorem julian2date_period (j : Int) :
+    julian2date (j + 146097) = ((julian2date j).1 + 400, (julian2date j).2.1, (julian2date j).2.2) := by
+  rw [julian2date_stages, julian2date_stages, stA_period]
+  have h1 : (stA j + 146100) / 1461 = stA j / 1461 + 100 := by omega
+  rw [h1]
+  have h2 : stA j + 146100 - (stA j / 1461 + 100) * 1461 = stA j - stA j / 1461 * 1461 := by omega
+  rw [h2]
+  simp only [Prod.mk.injEq, and_true]; omega
+
+/-- Nat mirror of julian2date, Y = year + 4800 -/
+def j2dN (J : Nat) : Nat × Nat × Nat :=
+  let a := J + 32044
+  let b := a + (60 + a / 146097 * 3 + (a % 146097 * 4 + 3) / 146097)
+  let q := b / 1461
+  let r := b % 1461
+  let y := r * 4 / 1461
+  let c := cond (y.beq 0) ((r + 306) % 366 + 123) ((r + 305) % 365 + 123)
+  let k := c * 2141 / 65536
+  (y + q * 4, (k + 10) % 12 + 1, c - 7834 * k / 256)
+
+theorem chk'_eq (J : Nat) : chk' J = fin J (j2dN J).1 (j2dN J).2.1 (j2dN J).2.2 := rfl
+
+def stAN (J : Nat) : Nat :=
+  let a := J + 32044
+  a + (60 + a / 146097 * 3 + (a % 146097 * 4 + 3) / 146097)
+def stCN (r : Nat) : Nat := cond ((r * 4 / 1461).beq 0) ((r + 306) % 366 + 123) ((r + 305) % 365 + 123)
+
+theorem j2dN_stages (J : Nat) : j2dN J =
+    (stAN J % 1461 * 4 / 1461 + stAN J / 1461 * 4, (stCN (stAN J % 1461) * 2141 / 65536 + 10) % 12 + 1,
+      stCN (stAN J % 1461) - 7834 * (stCN (stAN J % 1461) * 2141 / 65536) / 256) := rfl
+
+theorem stA_cast (J : Nat) : stA (J : Int) = (stAN J : Int) := by
+  unfold stA stA' stAN; simp only []
+  have : ((J:Int) + 32044 - ((J:Int) + 32044) / 146097 * 146097) = ((J:Int) + 32044) % 146097 := by omega
+  rw [this]
+  simp only [Int.natCast_add, Int.natCast_mul, Int.natCast_ediv, Int.natCast_emod, Int.cast_ofNat_Int]
+
+theorem stC_cast (r : Nat) : stC (r : Int) = (stCN r : Int) := by
+  unfold stC stCN stY
+  cases h : (r * 4 / 1461).beq 0
+  · have h' : ¬ (r * 4 / 1461 = 0) := by intro e; rw [e] at h; exact absurd h (by decide)
+    have : ((r:Int) * 4 / 1461 ≠ 0) := by omega
+    rw [if_pos this]; simp only [cond]; omega
+  · have h' : r * 4 / 1461 = 0 := Nat.eq_of_beq_eq_true h
+    have : ¬ ((r:Int) * 4 / 1461 ≠ 0) := by omega
+    rw [if_neg this]; simp only [cond]; omega
+
+theorem stCN_range (r : Nat) : 123 ≤ stCN r ∧ stCN r ≤ 488 := by
+  unfold stCN; cases (r * 4 / 1461).beq 0 <;> simp only [cond] <;> omega
+
+theorem j2d_cast (J : Nat) :
+    julian2date (J : Int) = (((j2dN J).1 : Int) - 4800, ((j2dN J).2.1 : Int), ((j2dN J).2.2 : Int)) := by
+  rw [julian2date_stages, j2dN_stages, stA_cast]
+  have e : ((stAN J : Int) - (stAN J : Int) / 1461 * 1461) = ((stAN J % 1461 : Nat) : Int) := by omega
+  rw [e, stC_cast]
+  have hr := stCN_range (stAN J % 1461)
+  generalize stCN (stAN J % 1461) = c at hr ⊢
+  have hk : 7834 * (c * 2141 / 65536) / 256 ≤ c := by omega
+  unfold stY stM stD stK
+  simp only [Prod.mk.injEq]
+  refine ⟨?_, ?_, ?_⟩
+  · simp only [Int.natCast_add, Int.natCast_mul, Int.natCast_ediv, Int.natCast_emod, Int.cast_ofNat_Int]
+  · simp only [Int.natCast_add, Int.natCast_mul, Int.natCast_ediv, Int.natCast_emod, Int.cast_ofNat_Int]
+  · rw [Int.natCast_sub hk]; simp only [Int.natCast_mul, Int.natCast_ediv, Int.cast_ofNat_Int]
+
+end Cal
+
+/-! ### The checker's verdict, read back in `Int` -/
+
+namespace Cal
+
+theorem nbeq_iff (a b : Nat) : Nat.beq a b = true ↔ a = b :=
+  ⟨Nat.eq_of_beq_eq_true, fun h => h ▸ Nat.beq_refl a⟩
+theorem nbeq_eq (a b : Nat) : Nat.beq a b = (a == b) := by
+  rw [Bool.eq_iff_iff, nbeq_iff, beq_iff_eq]
+
+theorem leapN_eq (Y : Nat) : leapN Y = isLeap ((Y : Int) - 4800) := by
+  have e : leapN Y = (Nat.beq (Y % 4) 0 && (!(Nat.beq (Y % 100) 0) || Nat.beq (Y % 400) 0)) := rfl
+  rw [e, Bool.eq_iff_iff]; unfold isLeap
+  simp only [nbeq_eq, Bool.and_eq_true, Bool.or_eq_true, Bool.not_eq_true', beq_iff_eq, bne_iff_ne, ne_eq,
+    beq_eq_false_iff_ne]
+  omega
+
+theorem dimN_cast (Y m : Nat) : (dimN Y m : Int) = dim ((Y : Int) - 4800) m := by
+  have e : dimN Y m = cond (Nat.beq m 2) (cond (leapN Y) 29 28)
+      (cond (Nat.beq m 4 || Nat.beq m 6 || Nat.beq m 9 || Nat.beq m 11) 30 31) := rfl
+  rw [e, leapN_eq Y]; unfold dim
+  by_cases h2 : m = 2
+  · subst h2; cases isLeap ((Y : Int) - 4800) <;> simp
+  · have h2' : ¬ ((m : Int) = 2) := by omega
+    have b2 : Nat.beq m 2 = false := by rw [← Bool.not_eq_true, nbeq_iff]; exact h2
+    rw [if_neg h2', b2]
+    by_cases h : m = 4 ∨ m = 6 ∨ m = 9 ∨ m = 11
+    · have h' : (m : Int) = 4 ∨ (m : Int) = 6 ∨ (m : Int) = 9 ∨ (m : Int) = 11 := by omega
+      have b : (Nat.beq m 4 || Nat.beq m 6 || Nat.beq m 9 || Nat.beq m 11) = true := by
+        simp only [Bool.or_eq_true, nbeq_iff]; omega
+      rw [if_pos h', b]; rfl
+    · have h' : ¬ ((m : Int) = 4 ∨ (m : Int) = 6 ∨ (m : Int) = 9 ∨ (m : Int) = 11) := by omega
+      have b : (Nat.beq m 4 || Nat.beq m 6 || Nat.beq m 9 || Nat.beq m 11) = false := by
+        rw [← Bool.not_eq_true]; simp only [Bool.or_eq_true, nbeq_iff]; omega
+      rw [if_neg h', b]; rfl
+
+theorem d2jN'_cast (y m d : Nat) (hy : 4800 ≤ y) :
+    ((y * 365 + (y / 4 + y / 100 / 4) + (7834 * m / 256 + d) - (32167 + y / 100) : Nat) : Int) =
+      (y : Int) * 365 - 32167 + ((y : Int) / 4 - (y : Int) / 100 + (y : Int) / 100 / 4) + (7834 * (m : Int) / 256 + d) := by
+  have hk : 32167 + y / 100 ≤ y * 365 + (y / 4 + y / 100 / 4) + (7834 * m / 256 + d) := by omega
+  rw [Int.natCast_sub hk]
+  simp only [Int.natCast_add, Int.natCast_mul, Int.natCast_ediv, Int.cast_ofNat_Int]
+  omega
+
+theorem d2jN_cast (Y m d : Nat) (hY : 4801 ≤ Y) (hm : 1 ≤ m ∧ m ≤ 12) :
+    date2julian ((Y : Int) - 4800) m d = (d2jN Y m d : Int) := by
+  rw [date2julian_nonneg _ _ _ (by omega) (by omega)]
+  have e : d2jN Y m d = cond (Nat.ble m 2)
+      (((Y - 1) * 365 + ((Y - 1) / 4 + (Y - 1) / 100 / 4) + (7834 * (m + 13) / 256 + d)) - (32167 + (Y - 1) / 100))
+      ((Y * 365 + (Y / 4 + Y / 100 / 4) + (7834 * (m + 1) / 256 + d)) - (32167 + Y / 100)) := rfl
+  rw [e]
+  by_cases h : m ≤ 2
+  · have : Nat.ble m 2 = true := by rw [Nat.ble_eq]; exact h
+    rw [this, if_neg (by omega)]; simp only [cond]
+    rw [d2jN'_cast (Y - 1) (m + 13) d (by omega)]
+    have e1 : (Y : Int) - 4800 + 4799 = ((Y - 1 : Nat) : Int) := by omega
+    have e2 : ((m + 13 : Nat) : Int) = (m : Int) + 13 := by omega
+    rw [e1, e2]
+  · have : Nat.ble m 2 = false := by rw [← Bool.not_eq_true, Nat.ble_eq]; exact h
+    rw [this, if_pos (by omega)]; simp only [cond]
+    rw [d2jN'_cast Y (m + 1) d (by omega)]
+    have e1 : (Y : Int) - 4800 + 4800 = (Y : Int) := by omega
+    have e2 : ((m + 1 : Nat) : Int) = (m : Int) + 1 := by omega
+    rw [e1, e2]
+
+theorem fin_spec (J Y m d : Nat) (h : fin J Y m d = true) :
+    1 ≤ (Y : Int) - 4800 ∧ IsDate ((Y : Int) - 4800) m d ∧ date2julian ((Y : Int) - 4800) m d = J := by
+  have e : fin J Y m d = (Nat.ble 4801 Y && (Nat.ble 1 m && (Nat.ble m 12 && (Nat.ble 1 d &&
+      (Nat.ble d (dimN Y m) && Nat.beq (d2jN Y m d) J))))) := rfl
+  rw [e] at h
+  simp only [Bool.and_eq_true, Nat.ble_eq, nbeq_iff] at h
+  obtain ⟨a1, a2, a3, a4, a5, a6⟩ := h
+  have hd := dimN_cast Y m
+  refine ⟨by omega, ⟨by omega, by omega, by omega, by omega⟩, ?_⟩
+  rw [d2jN_cast Y m d a1 ⟨a2, a3⟩, a6]
+
+/-- What is established for a Julian day `j`: it extracts to a real date of a year ≥ 1 that converts back. -/
+def Good (j : Int) : Prop :=
+  1 ≤ (julian2date j).1 ∧ IsDate (julian2date j).1 (julian2date j).2.1 (julian2date j).2.2 ∧
+    date2julian (julian2date j).1 (julian2date j).2.1 (julian2date j).2.2 = j
+
+theorem good_of_chk' (J : Nat) (h : chk' J = true) : Good (J : Int) := by
+  rw [chk'_eq] at h
+  unfold Good
+  rw [j2d_cast]
+  exact fin_spec _ _ _ _ h
+
+theorem chk_all (n : Nat) (h : n < 146097) : chk n = true := by
+  by_cases c0 : n < 18432; · exact chunk0 n (by omega) c0
+  by_cases c1 : n < 36864; · exact chunk1 n (by omega) c1
+  by_cases c2 : n < 55296; · exact chunk2 n (by omega) c2
+  by_cases c3 : n < 73728; · exact chunk3 n (by omega) c3
+  by_cases c4 : n < 92160; · exact chunk4 n (by omega) c4
+  by_cases c5 : n < 110592; · exact chunk5 n (by omega) c5
+  by_cases c6 : n < 129024; · exact chunk6 n (by omega) c6
+  exact chunk7 n (by omega) (by omega)
+
+/-- One 400-year period, by kernel evaluation (the 8 chunk modules). -/
+theorem good_base (n : Nat) (h : n < 146097) : Good (1721426 + (n : Int)) := by
+  have := good_of_chk' (1721426 + n) (chk_all n h)
+  have e : ((1721426 + n : Nat) : Int) = 1721426 + (n : Int) := by omega
+  rw [e] at this; exact this
+
+theorem isLeap_period (y : Int) : isLeap (y + 400) = isLeap y := by
+  unfold isLeap
+  have h4 : (y + 400) % 4 = y % 4 := by omega
+  have h100 : (y + 400) % 100 = y % 100 := by omega
+  have h400 : (y + 400) % 400 = y % 400 := by omega
+  rw [h4, h100, h400]
+
+theorem dim_period (y m : Int) : dim (y + 400) m = dim y m := by
+  unfold dim; rw [isLeap_period]
+
+theorem date2julian_period (y m d : Int) (hy : 0 ≤ y) (hm : 1 ≤ m ∧ m ≤ 12) :
+    date2julian (y + 400) m d = date2julian y m d + 146097 := by
+  rw [date2julian_nonneg _ _ _ (by omega) hm, date2julian_nonneg _ _ _ (by omega) hm]
+  by_cases h : m > 2
+  · rw [if_pos h, if_pos h]; omega
+  · rw [if_neg h, if_neg h]; omega
+
+theorem good_period (j : Int) (h : Good j) : Good (j + 146097) := by
+  unfold Good at *
+  rw [julian2date_period]
+  obtain ⟨h1, h2, h3⟩ := h
+  obtain ⟨m1, m2, d1, d2⟩ := h2
+  refine ⟨by omega, ⟨m1, m2, d1, ?_⟩, ?_⟩
+  · show _ ≤ dim ((julian2date j).1 + 400) (julian2date j).2.1
+    rw [dim_period]; exact d2
+  · show date2julian ((julian2date j).1 + 400) (julian2date j).2.1 (julian2date j).2.2 = _
+    rw [date2julian_period _ _ _ (by omega) ⟨m1, m2⟩, h3]
+
+theorem good_periods (k : Nat) : ∀ n : Nat, n < 146097 → Good (1721426 + (n : Int) + 146097 * (k : Int)) := by
+  induction k with
+  | zero => intro n h; simpa using good_base n h
+  | succ k ih =>
+    intro n h
+    have e : 1721426 + (n : Int) + 146097 * ((k + 1 : Nat) : Int) = 1721426 + (n : Int) + 146097 * (k : Int) + 146097 := by
+      omega
+    rw [e]; exact good_period _ (ih n h)
+
+/-- Every Julian day from 0001-01-01 on (no upper bound). -/
+theorem good_all (j : Int) (h : 1721426 ≤ j) : Good j := by
+  have := good_periods ((j - 1721426) / 146097).toNat ((j - 1721426) % 146097).toNat (by omega)
+  have e : 1721426 + (((j - 1721426) % 146097).toNat : Int) + 146097 * (((j - 1721426) / 146097).toNat : Int) = j := by
+    omega
+  rw [e] at this; exact this
+
+end Cal
 
 /-- ROUND TRIP 1: every in-range day number extracts to a real date of years 1..9999 that converts back to it. -/
 theorem extract_roundtrip (j : Int) (hj : isValidDate j) :
     ValidYMD (Date.extract j).1 (Date.extract j).2.1 (Date.extract j).2.2 ∧
     Date.fromYmdUnchecked (Date.extract j).1 (Date.extract j).2.1 (Date.extract j).2.2 = j := by
-  sorry
+  rw [isValidDate_iff] at hj
+  unfold Date.extract Date.fromYmdUnchecked
+  rw [UNIX_EPOCH_JULIAN_eq]
+  obtain ⟨g1, g2, g3⟩ := good_all (j + 2440588) (by omega)
+  refine ⟨⟨g1, ?_, g2⟩, by omega⟩
+  apply Decidable.byContradiction
+  intro hc
+  have hy : 10000 ≤ (julian2date (j + 2440588)).1 := by omega
+  have a := dayNumber_ge_of_year_ge _ _ _ 10000 hy g2
+  rw [dby_10000] at a
+  rw [date2julian_eq_dayNumber _ _ _ (by omega) ⟨g2.1, g2.2.1⟩] at g3
+  omega
 
 /-- ROUND TRIP 2: every real date of years 1..9999 converts to an in-range day number that extracts back to it. -/
 theorem extract_fromYmd (y m d : Int) (h : ValidYMD y m d) :
     isValidDate (Date.fromYmdUnchecked y m d) ∧ Date.extract (Date.fromYmdUnchecked y m d) = (y, m, d) := by
-  sorry
+  have hr := dayNumber_range y m d h
+  obtain ⟨hy1, hy2, hd⟩ := h
+  have e := fromYmd_eq_dayNumber y m d ⟨by omega, by omega⟩ ⟨hd.1, hd.2.1⟩
+  have hv : isValidDate (Date.fromYmdUnchecked y m d) := by rw [isValidDate_iff, e]; exact hr
+  refine ⟨hv, ?_⟩
+  generalize Date.fromYmdUnchecked y m d = X at e hv
+  obtain ⟨⟨v1, v2, v3⟩, r⟩ := extract_roundtrip X hv
+  have r' := r.trans e
+  rw [fromYmd_eq_dayNumber _ _ _ ⟨by omega, by omega⟩ ⟨v3.1, v3.2.1⟩] at r'
+  exact dayNumber_inj _ _ _ _ _ _ v3 hd r'
 
 /-- Consecutive day numbers are consecutive calendar dates. -/
 theorem extract_succ (j : Int) (hj : isValidDate j) (hj1 : isValidDate (j + 1)) :
     Date.extract (j + 1) = nextDay (Date.extract j) := by
-  sorry
+  obtain ⟨⟨v1, v2, v3⟩, r⟩ := extract_roundtrip j hj
+  obtain ⟨⟨w1, w2, w3⟩, s⟩ := extract_roundtrip (j + 1) hj1
+  rw [fromYmd_eq_dayNumber _ _ _ ⟨by omega, by omega⟩ ⟨v3.1, v3.2.1⟩] at r
+  rw [fromYmd_eq_dayNumber _ _ _ ⟨by omega, by omega⟩ ⟨w3.1, w3.2.1⟩] at s
+  have n1 := dayNumber_nextDay _ _ _ v3
+  have n2 := nextDay_isDate _ _ _ v3
+  rw [r, ← s] at n1
+  exact dayNumber_inj _ _ _ _ _ _ w3 n2 n1.symm
 
 theorem extract_min : Date.extract (-719162) = (1, 1, 1) := by decide
 theorem extract_max : Date.extract 2932896 = (9999, 12, 31) := by decide
